@@ -140,7 +140,7 @@ def spell_value(rng, dev, v, radix, kind):
     if kind == 'label':
         if not 0 <= v < AM:
             return None
-        name = rng.choice(['val', 'L1', '_x9', 'Data.tbl', 'yy', 'Ax'])
+        name = rng.choice(['val', 'L1', '_x9', 'Data.tbl', 'yy', 'Ax', 'add', 'dec', 'c0de', 'f00', 'be_ef', 'FF', 'b1'])
         return name, ((name, v),)
     if kind in ('label+', 'label-'):
         off = rng.choice([0, 1, 2, 0x10, 0xff, 0x1a, rng.randrange(1, 300)])
@@ -150,7 +150,7 @@ def spell_value(rng, dev, v, radix, kind):
             base = v - off if kind == 'label+' else v + off
             if not 0 <= base < AM:
                 return None
-        name = rng.choice(['base', 'Tbl', 'p_0', 'q'])
+        name = rng.choice(['base', 'Tbl', 'p_0', 'q', 'bed', 'fade', 'e2', 'DEAD'])
         osp = spell_number(rng, off, radix, rng.choice(('hex', 'dec', 'bin', 'bare')))
         if osp[0] not in '$+%' and not all(c in '0123456789abcdefABCDEF' for c in osp):
             return None
